@@ -46,6 +46,12 @@ Decides necessary structural conditions only (never that decoded values equal wh
                                     fileformat.proto / osmformat.proto (frozen table PROTO in this module = the specification witness)
    o5m-prefetch-not-required        in O5mParser::decode_data a refill request for a constant number of bytes > 1 (the varint prefetch) is
                                     best effort only: its result decides nothing, so a short final dataset is still accepted
+   pbf-range-guard-tests-consumed-range  a value taken from a packed range X (varint_range::next_*) under emptiness guards is under the guard
+                                    `!X.empty()` of X itself, never only of sibling ranges (dense info columns, way refs/lat/lon, relation
+                                    roles/memids/types, keys/vals)
+   loop-state-fresh-per-iteration   (OPL, o5m, PBF, XML reader files) a local handed directly to a builder call inside a loop and redefined
+                                    somewhere in that loop is redefined on EVERY path from one execution of the call to the next (declared in
+                                    the body or reset each iteration): no value is inherited from the previous element
  XML       attribute order independence
    xml-attribute-branch-own-field   in every per-attribute dispatcher (the lambdas handed to XMLParser::check_attributes, OSMObject::set_attribute,
                                     Changeset::set_attribute) a branch for one attribute updates only its own field of the state being assembled:
@@ -2158,7 +2164,10 @@ def run(ctx):
         (R_RGET, 2),
         (R_XATTR, 10),
         (R_NUM, 70),        # every field of the 13 messages in the frozen PROTO table
-        (R_PREF, 3),        # ensure_bytes_available(1) loop condition, (max_varint_length) best-effort prefetch, (length)
+        (R_PREF, 3),
+        (R_RANGE, 21),      # way 3, relation 3, build_tag_list 2, dense tag list 1, dense without metadata 3, dense 9
+        (R_FRESH, 10),      # o5m decode_tags 2, decode_relation 1; OPL tags 2, way nodes 2, relation members 3
+        # ensure_bytes_available(1) loop condition, (max_varint_length) best-effort prefetch, (length)
       # 8 check_attributes lambdas (init_object, init_changeset, get_tag, top_level_element, bounds, nd, member, comment) + 2 set_attribute
     ]
     for rule, n in floors:
@@ -2181,6 +2190,8 @@ def _st_block(fb, R):
     for cls in ('DecoderA', 'DecoderB'):
         pbf_block_param_rules(fb, R, sws, PD=P + cls, RESOLUTION=P + 'lonlat_resolution', RESCONV=P + 'resolution_convert')
     pbf_framing_rules(fb, R, PARSER=P + 'Framer', LIMIT=P + 'max_blob_header_size', BLOBLIMIT=P + 'max_uncompressed_blob_size')
+    pbf_range_guard_rules(fb, R)
+    loop_state_rules(fb, R, files=('c02_block.cpp',))
 
 
 def _st_o5m(fb, R):
@@ -2190,5 +2201,5 @@ def _st_o5m(fb, R):
 
 
 SELFTESTS = [(r, 'c02_dispatch.cpp', _st_dispatch) for r in (R_DEFAULT, R_ONCE, R_SPEC, R_SIB)] + \
-            [(r, 'c02_block.cpp', _st_block) for r in (R_FORMULA, R_LOC, R_TS, R_STORE, R_DEFAULTS, R_ORDER, R_BE, R_LIMIT, R_SPECLIM)] + \
+            [(r, 'c02_block.cpp', _st_block) for r in (R_FORMULA, R_LOC, R_TS, R_STORE, R_DEFAULTS, R_ORDER, R_BE, R_LIMIT, R_SPECLIM, R_RANGE, R_FRESH)] + \
             [(r, 'c02_o5m.cpp', _st_o5m) for r in (R_RESET, R_MARK, R_CODES, R_FRAME, R_RCONST, R_RADD, R_RGET)]
